@@ -217,7 +217,7 @@ func genStream(r *vlib.RNG, bs, maxBlocks int, count func(string)) streamSpec {
 // ---- damage
 
 type dmgSpec struct {
-	Kind string `json:"kind"` // flip zero garbage setlen settype zerotail garbagetail dupblock swapblocks
+	Kind string `json:"kind"` // flip zero garbage setlen settype zerotail garbagetail cutzero cutgarbage dupblock swapblocks
 	Off  int    `json:"off"`
 	Len  int    `json:"len"`
 	Val  int    `json:"val"`
@@ -290,6 +290,27 @@ func applyDamage(orig []byte, ds []dmgSpec, bs int) (out []byte, ranges [][2]int
 		case "garbagetail":
 			out = append(out, garbage(d.Seed, d.Len)...)
 			ranges = append(ranges, [2]int{len(out) - d.Len, len(out)})
+		case "cutzero", "cutgarbage":
+			// what a crash leaves of an unsynced tail on some file systems (vstor TailCutZero /
+			// TailCutJunk): the stream cut at Off, then zeros / garbage up to the written length
+			// (Val = 1: garbage of period 16, which travels compactly in (K) cases)
+			if d.Off < len(out) {
+				n := len(out) - d.Off
+				switch {
+				case d.Kind == "cutzero":
+					for k := d.Off; k < len(out); k++ {
+						out[k] = 0
+					}
+				case d.Val == 1:
+					pat := garbage(d.Seed, ghostSize)
+					for k := 0; k < n; k++ {
+						out[d.Off+k] = pat[k%ghostSize]
+					}
+				default:
+					copy(out[d.Off:], garbage(d.Seed, n))
+				}
+				ranges = append(ranges, [2]int{d.Off, len(out)})
+			}
 		case "dupblock": // block Val is overwritten with a copy of block Off (block numbers)
 			src, dst := d.Off*bs, d.Val*bs
 			if src < len(out) && dst < len(out) {
@@ -356,7 +377,7 @@ func genDamage(r *vlib.RNG, stream []byte, l *refLayout, bs int, allowNonPositio
 	}
 	var ds []dmgSpec
 	one := func() dmgSpec {
-		w := []int{6, 3, 3, 4, 1, 1, 0, 0, 2}
+		w := []int{6, 3, 3, 4, 1, 1, 0, 0, 2, 3}
 		if allowNonPositional && n > bs {
 			w[6], w[7] = 3, 2
 		}
@@ -419,6 +440,24 @@ func genDamage(r *vlib.RNG, stream []byte, l *refLayout, bs int, allowNonPositio
 				ln = 100
 			}
 			return dmgSpec{Kind: "garbagetail", Len: ln, Seed: r.Uint64()}
+		case 9:
+			// cut + zero / garbage tail up to the written length; cut points as for truncation:
+			// headers, payload ends, and 1..8 bytes on either side of a block boundary
+			off := pickOff()
+			if n > bs && r.Chance(1, 3) {
+				off = (1+r.Intn(n/bs))*bs + r.Range(-8, 8)
+				if off >= n {
+					off = n - 1
+				}
+			}
+			if r.Chance(1, 2) {
+				return dmgSpec{Kind: "cutzero", Off: off}
+			}
+			v := 0
+			if allowNonPositional {
+				v = 1
+			}
+			return dmgSpec{Kind: "cutgarbage", Off: off, Val: v, Seed: r.Uint64()}
 		case 8:
 			// overwrite a chunk's type byte: the values around the valid range, or another valid type
 			if len(l.Chunks) == 0 {
